@@ -1263,7 +1263,9 @@ func replayAfterSinkError() (finds []jeFinding) {
 		var errOut bytes.Buffer
 		lg := zap.New(zapcore.NewCore(zapcore.NewJSONEncoder(zapcore.EncoderConfig{MessageKey: "m", SkipLineEnding: true}), zapcore.Lock(sink), zapcore.DebugLevel), zap.ErrorOutput(zapcore.AddSync(&errOut)))
 		want := []string{}
-		func() {
+		finished := make(chan struct{})
+		go func() {
+			defer close(finished)
 			defer func() {
 				if p := recover(); p != nil {
 					add("panic", "logging after a sink write error panicked: %v", p)
@@ -1281,6 +1283,12 @@ func replayAfterSinkError() (finds []jeFinding) {
 				}
 			}
 		}()
+		select {
+		case <-finished:
+		case <-time.After(5 * time.Second):
+			add("sink:hang", "after write #%d to a Lock-wrapped sink failed, the next logging call never returned", failAt)
+			return finds
+		}
 		if strings.Join(sink.lines, "\n") != strings.Join(want, "\n") {
 			for k := range sink.lines {
 				if k >= len(want) || sink.lines[k] != want[k] {
